@@ -774,6 +774,18 @@ def run_all(ctx, obs, progress=True):
     return results
 
 
+def _dbits(x):
+    import struct
+    return struct.unpack("<Q", struct.pack("<d", float(x)))[0]
+
+
+# generic operand words for the native probe run of an obligation that carries none of its own: small distinct integers, the bit patterns of small
+# distinct doubles (harnesses read their inputs as 64-bit words and interpret them as the operand type), and zero / all-ones alternating
+DEFAULT_PROBES = [[str((i * 2654435761 + 12345) % 997 + 1) for i in range(2048)],
+                  [str(_dbits(((37 * i + 11) % 101) - 50.0 + 0.5 * (i % 2))) for i in range(2048)],
+                  [str(0 if (i // 4) % 2 else (1 << 64) - 1) for i in range(2048)]]
+
+
 def finish(ctx, results, meta, extra_results=()):
     """classify, replay, print verdict lines, write evidence; returns exit code.
 
@@ -802,12 +814,15 @@ def finish(ctx, results, meta, extra_results=()):
                 more_failed.append(r)
                 continue
             ok, text, rpath = native_replay(ctx, r.ob, r.inputs, "%d" % len(violations), r.replay_defs, r.replay_sanitizer)
-            if not ok and getattr(r.ob, "probe_inputs", None):
+            if not ok:
                 # the solver's input values may be degenerate for the native oracle (e.g. all-zero operands when the failing assertion is a
-                # harness-side contract check): retry on the obligation's generic probe vector before calling it an encoding mismatch
-                ok2, text2, rpath2 = native_replay(ctx, r.ob, r.ob.probe_inputs, "%dp" % len(violations), r.replay_defs, r.replay_sanitizer)
-                if ok2:
-                    ok, text, rpath = ok2, text2, rpath2
+                # harness-side contract check, or a sliced trace that carries no data): retry on the obligation's probe vector(s) before calling it an
+                # encoding mismatch
+                for pi, probe in enumerate([r.ob.probe_inputs] if getattr(r.ob, "probe_inputs", None) else DEFAULT_PROBES):
+                    ok2, text2, rpath2 = native_replay(ctx, r.ob, probe, "%dp%d" % (len(violations), pi), r.replay_defs, r.replay_sanitizer)
+                    if ok2:
+                        ok, text, rpath = ok2, text2, rpath2
+                        break
             r.replay = {"reproduced": ok, "path": rpath, "text": text[-1500:]}
             if ok:
                 n_fail += 1
@@ -823,8 +838,13 @@ def finish(ctx, results, meta, extra_results=()):
             # The solver side gave no verdict (time, memory, a construct outside the interpreted fragment - e.g. accesses through a pointer made from an
             # integer).  If the obligation carries a generic probe vector, the native harness (real code + exact oracle) is run on it: a failure there is a
             # violation of the property demonstrated on the real code, reported as such and labelled as found by the probe, not by the solver.
-            if getattr(r.ob, "probe_inputs", None) and len(violations) < MAX_REPLAYS and "build:" not in (r.detail or ""):
-                ok, text, rpath = native_replay(ctx, r.ob, r.ob.probe_inputs, "%dq" % len(violations))
+            probes = [r.ob.probe_inputs] if getattr(r.ob, "probe_inputs", None) else DEFAULT_PROBES
+            ok = False
+            if len(violations) < MAX_REPLAYS and "build:" not in (r.detail or ""):
+                for pi, probe in enumerate(probes):
+                    ok, text, rpath = native_replay(ctx, r.ob, probe, "%dq%d" % (len(violations), pi))
+                    if ok:
+                        break
                 if ok:
                     r.status = "FAIL"
                     r.failed = [("probe", "solver side inconclusive (%s); the native harness fails on the obligation's probe operands" % (r.detail or "")[:160], "", "")]
